@@ -52,7 +52,7 @@
 \*   plain    volatile, no Maintainer        maint   volatile, Maintainer      disk  persistent (fstree), Maintainer
 \*   nostart  the factory fails              ghost   no factory registered     injected  database.StorageTypeInjected
 \* Versions are 1..MaxVer in semver order (0 = not a semantic version, as stored version: none).
-EXTENDS Integers, Sequences, FiniteSets, TLC
+EXTENDS Integers, Sequences, FiniteSets, SequencesExt, TLC
 
 GoodNames == {"core", "alpha", "b_2-X"}
 BadNames == {"ab", "bad name", "dot.ted"}
@@ -70,7 +70,7 @@ C(n, ev, x) == [n |-> n, ev |-> ev, x |-> x]
 NoDiag == [failed |-> 0, wid |-> 0, start |-> 0, lastok |-> 0, target |-> 0, plan |-> <<>>]
 
 Op(name) == [op |-> name, n |-> "", t |-> "", d |-> 0, s |-> FALSE, cap |-> FALSE, per |-> FALSE, mod |-> FALSE,
-             w |-> "", batch |-> <<>>, fails |-> {}, vetoes |-> {}, fll |-> {}]
+             w |-> "", batch |-> <<>>, fails |-> {}, vetoes |-> {}, fll |-> {}, tie |-> <<>>]
 
 \* err: "ok", "shutdown" (ErrShuttingDown), "boom" (the error of a storage), "diag" (*migration.Diagnostics),
 \*      "err" (any other error); in the model also "anyerr" (the call fails) and "any" (silent)
@@ -112,12 +112,13 @@ Use(st, n) ==
 Stored(st) == IF Running(st, "core") /\ Ctl(st, "core").t = "disk" THEN st.diskver ELSE st.memver
 SetStored(st, v) == IF Running(st, "core") /\ Ctl(st, "core").t = "disk" THEN [st EXCEPT !.diskver = v] ELSE [st EXCEPT !.memver = v]
 
-\* the orders in which the migrations P (indices into migs) may run: ascending version, equal versions in any order
-RECURSIVE Orders(_, _)
-Orders(migs, P) ==
-    IF P = {} THEN {<<>>}
-    ELSE LET m == CHOOSE v \in {migs[i].ver : i \in P} : \A j \in P : v <= migs[j].ver
-         IN UNION {{<<i>> \o t : t \in Orders(migs, P \ {i})} : i \in {j \in P : migs[j].ver = m}}
+\* the order in which the migrations P (indices into migs) run: ascending version; the statement is silent on
+\* migrations of equal version: tie (a sequence of migration ids, from the operation) ranks them, the rest
+\* follows in the order added
+Pos(seq, x) == IF \E i \in 1..Len(seq) : seq[i] = x THEN CHOOSE i \in 1..Len(seq) : seq[i] = x /\ \A j \in 1..(i - 1) : seq[j] # x ELSE 0
+OrderOf(migs, P, tie) ==
+    LET key(i) == migs[i].ver * 10000 + (IF Pos(tie, migs[i].id) > 0 THEN Pos(tie, migs[i].id) ELSE Len(tie) + i)
+    IN SetToSortSeq(P, LAMBDA a, b : key(a) < key(b))
 
 \* executing one order from position k: applied = version handed on as "from", lastok = last success of this
 \* run, stored = the persisted version, vetoed = a version could not be written earlier in this run
@@ -150,7 +151,7 @@ MigrateFrom(u, o) ==
                 [] OTHER -> (IF e.stored = e.applied THEN {Out(rr, nst)} ELSE {})
                             \cup (IF e.vetoed THEN {Out([rr EXCEPT !.err = "diag"], nst)} ELSE {})
            : e \in Exec(st.migs, ord, o, 1, <<>>, s, s, 0, FALSE) }
-           : ord \in Orders(st.migs, P) }
+           : ord \in {OrderOf(st.migs, P, o.tie)} }
 
 \* ---------------------------------------------------------------- the reference semantics
 Step(st, o) ==
